@@ -9,7 +9,7 @@
     a value and has an index) and every rendered left column is at most 65 523 columns wide (observation N:
     core::fmt limits run-time widths to u16; the bound is 65 535 - 12). *)
 From ClapModel Require Import Base.Bytes Base.Machine Parse.Cmd Parse.Build Parse.Valid Parse.Errors Parse.Parser.
-From ClapModel Require Import Gen.HelpTables Help.UsageModel Help.HelpModel Help.HelpProofs Help.HelpLevel Help.HelpSpecVals Help.HelpDispatch Help.HelpUsage.
+From ClapModel Require Import Gen.HelpTables Help.UsageModel Help.HelpModel Help.HelpProofs Help.HelpLevel Help.HelpSpecVals Help.HelpDispatch Help.HelpUsage Help.HelpGlobals.
 From RecordUpdate Require Import RecordSet.
 Import RecordSetNotations.
 Open Scope N_scope.
@@ -237,3 +237,25 @@ Theorem C12_usage_required_satisfiable :
   /\ (forall b, In b (hc_args ex_built) -> ha_index b = ha_index ex_f -> ha_id b = ha_id ex_f).
 Proof. exact ex_cmd_usage. Qed.
 Print Assumptions C12_usage_required_satisfiable.
+
+(** ---- round 2: global arguments are inherited into the subcommand levels ---- *)
+
+(** the level [_build_subcommand] returns for a subcommand other than the generated [help] subcommand has an
+    argument with the id of every global argument of the parent (its help lists it when it is shown there:
+    [C12_lists_visible_args]) *)
+Theorem C12_globals_in_level : forall c a name lv,
+  hc_built c = false -> In a (hc_args c) -> ha_global a = true ->
+  h_build_subcommand (h_build_self c) name = Some (Some lv) ->
+  (beq name s_help && negb (h_is_set hs_no_help_sub (h_build_self c))) = false ->
+  exists b, In b (hc_args lv) /\ ha_id b = ha_id a.
+Proof. exact globals_in_level. Qed.
+Print Assumptions C12_globals_in_level.
+
+Theorem C12_globals_satisfiable :
+  hc_built gl_cmd = false /\
+  exists a lv, In a (hc_args gl_cmd) /\ ha_global a = true
+    /\ h_build_subcommand (h_build_self gl_cmd) [115] = Some (Some lv)
+    /\ (beq [115] s_help && negb (h_is_set hs_no_help_sub (h_build_self gl_cmd))) = false
+    /\ map ha_id (hc_args lv) = [[111]; [103]; s_help].
+Proof. exact gl_cmd_level. Qed.
+Print Assumptions C12_globals_satisfiable.
